@@ -197,6 +197,22 @@ SkipForced(el) == [x \in DOMAIN forced |-> IF ~IsUnder(x, el) THEN forced[x]
 \* one of the element the hook belongs to; id = 500 + ordinal of the hook invocation
 HookCl(c) == IF P.hookcl THEN [c EXCEPT ![Len(c)].cls = Append(@, [id |-> 500 + rt.hookN + 1, raises |-> FALSE])] ELSE c
 
+\* with P.kbd a raising cleanup function raises KeyboardInterrupt, too: _do_cleanups catches Exception only, so the
+\* remaining cleanups of the layer are skipped; _pop still removes the layer (finally) and the interrupt travels on to
+\* run_model like one raised by a hook -- the element is not marked, no eof / rule_finished call-out, no retry
+KbdCl(cls) == P.kbd /\ AnyRaises(cls)
+ClEventsK(cls) == LET evs == ClEvents(cls)
+                      first == CHOOSE k \in DOMAIN evs : evs[k].raised /\ \A j \in 1..(k - 1) : ~evs[j].raised
+                  IN SubSeq(evs, 1, first)
+ClUnwind ==
+   LET base == stack[1]
+       fe == Features[base.i] IN
+   /\ rt' = [rt EXCEPT !.aborted = TRUE, !.failedCount = @ + 1, !.runFeature = FALSE, !.unwound = TRUE]
+   /\ evlog' = evlog \o ClEventsK(CtxTop.cls) \o <<RepEv("feature", fe, StatusOf(fe))>>
+   /\ ctx' = CtxPop
+   /\ stack' = << [base EXCEPT !.pc = "loop", !.i = base.i + 1] >>
+   /\ U(<<inputs, ret, model, cap>>)
+
 \* ======================================================================= run_model
 \* events recorded while the capture of an interrupted step is still installed see the capture streams
 Adj(e) == IF rt.stuck THEN [e EXCEPT !.out_real = ~cfg.cap_out, !.err_real = ~cfg.cap_err] ELSE e
@@ -246,6 +262,9 @@ AfterAll ==     \* after_all hook, _do_cleanups of the CURRENT context layer (no
       ELSE IF KbdNow THEN      \* the interrupt leaves run_model: no cleanups, no close, no end
            /\ rt' = [rt EXCEPT !.hookN = @ + 1, !.done = TRUE, !.escaped = TRUE]
            /\ evlog' = Append(evlog, Adj(HookEv("after_all", 0, "", TRUE, 0, FALSE)))
+      ELSE IF KbdCl(cls) THEN  \* an interrupting cleanup of the last layer: it leaves run_model, too
+           /\ rt' = [RtHook(TRUE) EXCEPT !.done = TRUE, !.escaped = TRUE]
+           /\ evlog' = Append(evlog, Adj(HookEv("after_all", 0, "", Raises, 0, FALSE))) \o AdjAll(ClEventsK(cls))
       ELSE /\ rt' = [RtHook(TRUE) EXCEPT !.rootClFailed = AnyRaises(cls), !.done = TRUE]
            /\ evlog' = Append(evlog, Adj(HookEv("after_all", 0, "", Raises, 0, FALSE))) \o tailEv
    /\ stack' = SetTop([Top EXCEPT !.pc = "finished"])
@@ -358,17 +377,18 @@ CAfterTag ==
 
 CPop ==     \* context._pop(): cleanups in reverse order, all attempted, error => Status.error; then eof/rule_finished
    /\ Top.fn = "container" /\ Top.pc = "pop"
-   /\ LET el == Top.el
-          cls == CtxTop.cls
-          clf == AnyRaises(cls)
-          cb == IF KindName(el) = "feature" THEN "eof" ELSE "rule_finished"
-          e == IF Top.sr \/ cfg.show_skipped THEN <<FmtEv(cb, 0, 0, "", FALSE)>> ELSE <<>> IN
-      /\ evlog' = evlog \o ClEvents(cls) \o e
-      /\ forced' = IF clf THEN [forced EXCEPT ![el] = "error"] ELSE forced
-      /\ ret' = (Top.fc > 0 \/ clf)
-      /\ ctx' = CtxPop
-      /\ stack' = Pop
-   /\ U(<<inputs, stepst, hookFailed, shouldSkip, rt, cap>>)
+   /\ IF KbdCl(CtxTop.cls) THEN ClUnwind ELSE
+      /\ LET el == Top.el
+             cls == CtxTop.cls
+             clf == AnyRaises(cls)
+             cb == IF KindName(el) = "feature" THEN "eof" ELSE "rule_finished"
+             e == IF Top.sr \/ cfg.show_skipped THEN <<FmtEv(cb, 0, 0, "", FALSE)>> ELSE <<>> IN
+         /\ evlog' = evlog \o ClEvents(cls) \o e
+         /\ forced' = IF clf THEN [forced EXCEPT ![el] = "error"] ELSE forced
+         /\ ret' = (Top.fc > 0 \/ clf)
+         /\ ctx' = CtxPop
+         /\ stack' = Pop
+      /\ U(<<inputs, stepst, hookFailed, shouldSkip, rt, cap>>)
 
 \* ======================================================================= ScenarioOutline.run
 OEnter ==
@@ -496,17 +516,18 @@ SAfterTag ==
    /\ U(<<inputs, ret, stepst, shouldSkip, ctx, cap>>)
 SPop ==     \* context._pop() with cleanups; contrib.scenario_autoretry: a failed attempt is followed by another run()
    /\ Top.fn = "scenario" /\ Top.pc = "pop"
-   /\ LET el == Top.el
-          cls == CtxTop.cls
-          clf == AnyRaises(cls)
-          failed == Top.failed \/ clf IN
-      /\ evlog' = evlog \o ClEvents(cls)
-      /\ forced' = IF clf THEN [forced EXCEPT ![el] = "error"] ELSE forced
-      /\ ctx' = CtxPop
-      /\ IF cfg.retry /\ failed /\ Top.att < 2
-         THEN /\ stack' = SetTop([Frame("scenario", el) EXCEPT !.att = Top.att + 1]) /\ U(ret)
-         ELSE /\ ret' = failed /\ stack' = Pop
-   /\ U(<<inputs, stepst, hookFailed, shouldSkip, rt, cap>>)
+   /\ IF KbdCl(CtxTop.cls) THEN ClUnwind ELSE
+      /\ LET el == Top.el
+             cls == CtxTop.cls
+             clf == AnyRaises(cls)
+             failed == Top.failed \/ clf IN
+         /\ evlog' = evlog \o ClEvents(cls)
+         /\ forced' = IF clf THEN [forced EXCEPT ![el] = "error"] ELSE forced
+         /\ ctx' = CtxPop
+         /\ IF cfg.retry /\ failed /\ Top.att < 2
+            THEN /\ stack' = SetTop([Frame("scenario", el) EXCEPT !.att = Top.att + 1]) /\ U(ret)
+            ELSE /\ ret' = failed /\ stack' = Pop
+      /\ U(<<inputs, stepst, hookFailed, shouldSkip, rt, cap>>)
 
 \* ======================================================================= Step.run (frame.el = scenario, frame.i = position)
 Wip(el) == "wip" \in Eff(el)
